@@ -7,6 +7,7 @@ the report, the log and the exit status.
 from __future__ import annotations
 
 import json
+import os
 from dataclasses import dataclass, field
 from pathlib import Path
 
@@ -149,6 +150,9 @@ def seeds_for(cid):
 def codemod_shards(tier, seed, per_shard_quick, per_shard_thorough, kinds=("plain", "rule", "sast"), batch=8):
     """Static partition of the registered codemods over shards (one shard = a few codemods)."""
     cms = [(cid, k) for cid, k in all_codemods() if k in kinds]
+    only = os.environ.get("CMV_ONLY")  # triage aid: restrict a campaign to codemod ids containing this text
+    if only:
+        cms = [c for c in cms if only in c[0]]
     # rule-detected ones are the slowest: spread them first
     cms.sort(key=lambda x: {"rule": 0, "sast": 1, "plain": 2}[x[1]])
     nshards = 16
@@ -156,7 +160,51 @@ def codemod_shards(tier, seed, per_shard_quick, per_shard_thorough, kinds=("plai
     for i, c in enumerate(cms):
         buckets[i % nshards].append(c)
     n = per_shard_quick if tier == "quick" else per_shard_thorough
-    return [{"codemods": b, "n": n, "seed": seed * 1000 + i, "batch": batch} for i, b in enumerate(buckets) if b]
+    return [{"codemods": b, "n": n, "seed": seed * 1000 + i, "batch": batch, "sweep": 8 if tier == "quick" else 1} for i, b in enumerate(buckets) if b]
+
+
+SWEEP_PART_OPS = (
+    [[["wrap", k]] for k in sorted(progspace.WRAPS)]
+    + [[["tabs"], ["wrap", "def"]], [["comment"]], [["alias"]], [["dupimport"]]]
+    + [[["addarg", k, s_]] for k in (0, 1) for s_ in ("pos", "kw", "star", "comma")]
+    + [[["quote", k, s_]] for k in (0, 1, 2) for s_ in ("flip", "inject", "flipinject", "mix")]
+    + [[["nest", k]] for k in (0, 1, 2)]
+    + [[["sameline", k]] for k in (0, 1, 2)]
+    + [[["tuplerhs", k, s_]] for k in (0, 1) for s_ in ("tuple", "lambda")]
+)
+SWEEP_FILE_OPS = [[["eol", "crlf"]], [["eol", "mixed"]], [["nofinalnl"]], [["bom"]], [["formfeed"]], [["prepend", 2, "docstring"]], [["prepend", 1, "comment"], ["append", 1]]]
+
+
+def _spread(items, k, offset):
+    """k items spread evenly over the list, rotated by `offset` (a function of VERIF_SEED): different
+    seeds cover different triggers, every run is reproducible."""
+    n = len(items)
+    if n <= k:
+        return list(items)
+    step = n / k
+    return [items[(offset + int(i * step)) % n] for i in range(k)]
+
+
+def sweep_cases(cid, seeds, sast, rotate, offset=0):
+    """Deterministic single-feature sweep over ALL harvested triggers of the codemod: trigger i is combined with
+    every op j for which (i + j + offset) % rotate == 0 (rotate = 1: every (trigger, op) pair; quick uses 4, so
+    each trigger meets a quarter of the ops and VERIF_SEED rotates which quarter)."""
+    out = []
+    pool = [(s["code"], s["results"]) for s in sast] if sast else [(c, None) for c in seeds]
+    variants = [("part", ops) for ops in SWEEP_PART_OPS] + [("file", f) for f in SWEEP_FILE_OPS] + [("plain", None), ("multi", None)]
+    for i, (code, doc) in enumerate(pool):
+        for j, (kind, ops) in enumerate(variants):
+            if (i + j + offset) % rotate:
+                continue
+            if kind == "part":
+                out.append({"codemod": cid, "parts": [{"code": code, "results": doc, "ops": ops}], "file_ops": []})
+            elif kind == "file":
+                out.append({"codemod": cid, "parts": [{"code": code, "results": doc, "ops": []}], "file_ops": ops})
+            elif kind == "plain":
+                out.append({"codemod": cid, "parts": [{"code": code, "results": doc, "ops": []}], "file_ops": []})
+            else:
+                out.append({"codemod": cid, "parts": [{"code": code, "results": doc, "ops": [["wrap", "def"]]}, {"code": code, "results": doc, "ops": [["wrap", "method"]]}], "file_ops": []})
+    return out
 
 
 def drive_programs(spec, handle_batch, stats: core.Stats, max_parts=3):
@@ -169,6 +217,22 @@ def drive_programs(spec, handle_batch, stats: core.Stats, max_parts=3):
         if not seeds and not sast:
             stats.discard("no-seed:" + cid)
             continue
+        if spec.get("sweep"):
+            seen = set()
+            chunk = []
+            for c in sweep_cases(cid, seeds, sast, spec["sweep"], spec["seed"] // 1000):
+                rd = progspace.render(c, "code.py")
+                h = core.sha(rd["data"])
+                if rd["level"] == 0 or h in seen:  # op not applicable to this seed -> same text as another case
+                    continue
+                seen.add(h)
+                stats.labels["sweep"] += 1
+                chunk.append((c, rd))
+                if len(chunk) == (90 if kind == "rule" else 60):
+                    handle_batch(cid, kind, chunk)
+                    chunk = []
+            if chunk:
+                handle_batch(cid, kind, chunk)
         # one semgrep invocation costs more than 30 transformer applications: rule-detected codemods get
         # three times as many programs per CLI run
         bsz = spec["batch"] * (3 if kind == "rule" else 1)
